@@ -15,7 +15,8 @@ def keyOfJson (j : Json) : Except String Key := do
 
 def getNats (j : Json) (k : String) : Except String (List Nat) := do
   let l ← natsOfJson (← j.getObjVal? k)
-  if l.isEmpty then throw s!"{k}: a file-set has at least one member" else return l
+  -- the constructor sorts the members (`members`); the harness may hand them over in any order
+  if l.isEmpty then throw s!"{k}: a file-set has at least one member" else return members l
 
 def opOfJson (j : Json) : Except String Op := do
   let op ← getStr j "op"
